@@ -628,3 +628,159 @@ def sc_c10(name, seed, mtu):
 def campaign_c10(seed, tier):
     rng = random.Random(seed)
     return [sc_c10("c10-%d" % i, rng.randrange(1 << 30), MTUS[i % 3]) for i in range(48 if tier == "quick" else 1500)]
+
+
+# --------------------------------------------------------------------------- C18
+def c18_corpus(wifi):
+    """(name, prefix frames, target frame): every request type and every large property"""
+    d0 = discover(0, M1, gen=0x11, seq=1)
+    obs = [probe(X, OWN, X, OWN), probe(PEER, OWN, PEER, OWN, train=True), probe(BR, OWN, X, OWN)]
+    return [
+        ("discover-fresh", [], d0),
+        ("discover-quick", [], discover(1, M1, gen=0x12, seq=2, eth_src=BR)),
+        ("discover-again", [d0], discover(0, M1, gen=0x13, seq=3)),
+        ("emit", [d0], emit(M1, OWN, [(1, 0, OWN, PEER), (0, 2, OWN, X), (1, 1, OWN, PEER)], seq=4)),
+        ("emit-fresh", [], emit(M1, OWN, [(1, 0, OWN, PEER)], seq=4)),
+        ("probe", [d0], obs[0]),
+        ("probe-dup", [d0, obs[0]], obs[0]),
+        ("query", [d0] + obs, query(M1, OWN, seq=5)),
+        ("query-empty", [d0], query(M1, OWN, seq=5)),
+        ("icon-first", [d0], query_large(M1, OWN, 0x0E, 0, seq=6)),
+        ("icon-cached", [d0, query_large(M1, OWN, 0x0E, 0, seq=6)], query_large(M1, OWN, 0x0E, 1466, seq=7)),
+        ("name", [d0], query_large(M1, OWN, 0x11, 0, seq=8, tos=1)),
+        ("hwid", [d0], query_large(M1, OWN, 0x13, 0, seq=9)),
+        ("large-unknown", [d0], query_large(M1, OWN, 0x55, 0, seq=10)),
+        ("reset", [d0] + obs + [query_large(M1, OWN, 0x0E, 0, seq=6)], reset(M1)),
+        ("reset-quick", [d0] + obs, reset(M1, tos=1)),
+        ("hello-heard", [d0], hello(0, PEER, 3, M1, M1)),
+    ]
+
+
+def sc_c18(name, wifi, prefix, target, fault, cont_seed, repeat=1):
+    """fault = dict(alloc=, sticky=, send=, get=) or None (measuring pass)"""
+    rng = random.Random(cont_seed)
+    s = new_script(mtu=1500, wifi=wifi, twins=True)
+    for f in prefix:
+        s.rx(1, f)
+    if fault:
+        s.fault(**fault)
+    for _ in range(repeat):
+        s.rx(1, target)
+    target_line = len(s.lines)       # 1-based index within the scenario of the (last) target RX
+    if fault:
+        s.clear()
+    s.rx(1, reset(M2))
+    cont = characterisation(rng)
+    for f in cont:
+        s.rx([1, 2], f)
+    sc = Scenario(name, s.lines, {"target_line": target_line})
+    return sc
+
+
+C18_GETSETS = [1 << 0, 1 << 1, 1 << 2, 1 << 3, 1 << 5, (1 << 0) | (1 << 1), (1 << 2) | (1 << 3) | (1 << 5), 0x3FFFF]
+
+
+def campaign_c18_measure():
+    scs = []
+    for wifi in (0, 1):
+        for (nm, pre, tgt) in c18_corpus(wifi):
+            scs.append(sc_c18("c18-measure-%s-%d" % (nm, wifi), wifi, pre, tgt, None, 1))
+    return scs
+
+
+def campaign_c18(seed, tier, counts):
+    """counts: name -> (allocations, transmits) of the target request in a fault-free run"""
+    rng = random.Random(seed)
+    scs = []
+    for wifi in (0, 1):
+        for (nm, pre, tgt) in c18_corpus(wifi):
+            na, ns = counts.get("c18-measure-%s-%d" % (nm, wifi), (3, 2))
+            for k in range(1, na + 2):
+                scs.append(sc_c18("c18-%s-%d-alloc%d" % (nm, wifi, k), wifi, pre, tgt, dict(alloc=k), rng.randrange(1 << 30)))
+            scs.append(sc_c18("c18-%s-%d-allocsticky" % (nm, wifi), wifi, pre, tgt, dict(alloc=1, sticky=1), rng.randrange(1 << 30)))
+            if na >= 2:
+                scs.append(sc_c18("c18-%s-%d-allocsticky2" % (nm, wifi), wifi, pre, tgt, dict(alloc=2, sticky=1), rng.randrange(1 << 30), repeat=2))
+            for j in range(1, ns + 1):
+                scs.append(sc_c18("c18-%s-%d-send%d" % (nm, wifi, j), wifi, pre, tgt, dict(send=1 << (j - 1)), rng.randrange(1 << 30)))
+            if ns >= 1:
+                scs.append(sc_c18("c18-%s-%d-sendall" % (nm, wifi), wifi, pre, tgt, dict(send="all"), rng.randrange(1 << 30), repeat=3))
+            for g in C18_GETSETS:
+                scs.append(sc_c18("c18-%s-%d-get%x" % (nm, wifi, g), wifi, pre, tgt, dict(get=g), rng.randrange(1 << 30)))
+            if tier == "thorough":
+                for _ in range(12):
+                    g = rng.randrange(1 << 17)
+                    scs.append(sc_c18("c18-%s-%d-get%x-a%d" % (nm, wifi, g, 2), wifi, pre, tgt,
+                                      dict(get=g, alloc=rng.randrange(0, na + 1), send=rng.randrange(0, 4)), rng.randrange(1 << 30)))
+    return scs
+
+
+# --------------------------------------------------------------------------- C01
+def boundary_counts(mtu):
+    return [0, 1, (mtu - 34) // 14, (mtu - 34) // 14 + 1, (mtu - 34) // 20, (mtu - 34) // 20 + 1,
+            (mtu - 36) // 6, (mtu - 36) // 6 + 1, (mtu - 36) // 14, (mtu - 36) // 14 + 1, 240, 0x7FFF, 0x8000, 0xFFFF]
+
+
+def sc_c01(name, seed, mtu, wifi, pairs, nrand):
+    rng = random.Random(seed)
+    s = Script()
+    s.cfg(host=bytes(rng.randrange(256) for _ in range(rng.randrange(0, 41))),
+          icon=(rng.choice([0, 1, 3000, 32768]), 1), name=(rng.choice([0, 5, 2000]), 2),
+          hwid=rng.choice([b"", "X".encode("utf-16le"), bytes(range(1, 65))]))
+    own = rng.choice([OWN, rnd_mac(rng)])
+    s.boot(1, own, mtu=mtu, wifi=wifi, fill=rng.choice([0xA5, 0, 0xFF]), **rnd_attrs(rng, wifi))
+    h = Hist(rng, own=own, mtu=mtu, wild=0.3)
+    counts = boundary_counts(mtu)
+    # every (ToS, opcode) pair of this shard, body: boundary counters + noise
+    for tos, op in pairs:
+        cnt = rng.choice(counts)
+        body = bytes([cnt >> 8, cnt & 0xFF]) + bytes([rng.choice(counts) >> 8 & 0xFF, rng.choice(counts) & 0xFF])
+        body += bytes(rng.randrange(256) for _ in range(rng.choice([0, 2, 12, 40, 200])))
+        src = rng.choice(STATIONS)
+        f = header(tos, op, rng.choice([own, BCAST]), src, rng.choice([own, BCAST, PEER]), src, rng.randrange(65536)) + body
+        f = f[:mtu]
+        ln = rng.choice([len(f), len(f), 32, rng.randrange(0, len(f) + 1)])
+        s.rx(1, f[:max(ln, 0)] if rng.random() < 0.3 else f, length=min(ln, mtu), fill=rng.choice([0, 0xFF, 1, rng.randrange(256)]), all_entries=True)
+        if rng.random() < 0.1:
+            s.adv(rng.choice([0, 1, 100, 999, 1000, 1001, 31000, 61000, 120000]))
+    for _ in range(nrand):
+        x = rng.random()
+        f = h.one()
+        if x < 0.35:
+            f = mutate(rng, f, mtu)
+        elif x < 0.55:
+            f = noise(rng, mtu)
+        elif x < 0.7 and len(f) >= 36:
+            # Discover / Emit / QueryResp-shaped frame with a boundary counter and a body that fills the MTU
+            cnt = rng.choice(counts)
+            b = bytearray(f[:32]) + bytes([rng.randrange(256), rng.randrange(256), cnt >> 8, cnt & 0xFF])
+            b[17] = rng.choice([0, 2])
+            if b[17] == 2:
+                b[32], b[33] = cnt >> 8, cnt & 0xFF
+            b += bytes(rng.choice([0, 1, rng.randrange(256)]) for _ in range(rng.choice([0, 14, mtu - 36])))
+            f = bytes(b)
+        f = f[:mtu]
+        s.rx(1, f, length=rng.choice([len(f), len(f), rng.randrange(0, len(f) + 1)]), fill=rng.choice([0, 0xFF, 1, 2, rng.randrange(256)]), all_entries=True)
+        if rng.random() < 0.1:
+            s.adv(rng.choice([0, 1, 100, 999, 1000, 1001, 5000, 31000, 61000, 120000]))
+    return Scenario(name, s.lines)
+
+
+def campaign_c01(seed, tier):
+    rng = random.Random(seed)
+    scs = []
+    if tier == "quick":
+        mtus = [576, 1500]
+        pairs = [(t, o) for o in range(256) for t in (0, 1, 2, 0xFF)] + [(t, o) for t in range(256) for o in (0, 2, 6, 8, 11)]
+        nrand = 250
+    else:
+        mtus = [576, 577, 1500, 9216]
+        pairs = [(t, o) for t in range(256) for o in range(256)]
+        nrand = 1500
+    rng.shuffle(pairs)
+    per = 256
+    i = 0
+    for mtu in mtus:
+        for j in range(0, len(pairs), per):
+            scs.append(sc_c01("c01-%d-%d" % (mtu, j // per), rng.randrange(1 << 30), mtu, i % 2, pairs[j:j + per], nrand if j < 16 * per else 0))
+            i += 1
+    return scs
